@@ -200,6 +200,16 @@ class C35(Spec):
                     defined = [v for v in S if any(v in st[1] for st in stmts[:pos])]
                     if defined:
                         stmts.insert(pos, ['caught_raise', [], [rng.choice(defined)], {'how': rng.choice(('indexOf', 'user'))}])
+        rng2 = random.Random(f'C35c/{seed // 2}')
+        if rng2.random() < 0.3:
+            # a result-less MPyC coroutine that fails after its first round, early in the program; what follows (and the
+            # barriers / shutdown) must be unaffected
+            S = [st[1][0] for st in stmts if st[0] in ('input', 'const') and st[1]]
+            if S:
+                pos = rng2.randint(1, max(1, len(stmts) // 2))
+                defined = [v for v in S if any(v in st[1] for st in stmts[:pos])]
+                if defined:
+                    stmts.insert(pos, ['late_raise', [], [rng2.choice(defined)], {}])
         return c
 
     def monitors(self, case):
@@ -1536,7 +1546,7 @@ class C18(Spec):
     level_text = ('weak statistical evidence by design: detects missing, reused or grossly short masks (mask shorter than '
                   'about log2(N) bits of the k required); it cannot certify statistical distance 2^-k, which would need far '
                   'more than 2^k samples')
-    quick = {'runs': 8400, 'wall': 85}
+    quick = {'runs': 8800, 'wall': 85}
     thorough = {'runs': 3000000, 'wall': 900}
     expected_probes = ('internal_openings', 'prss_evaluations')
     rule = ('one evaluation = one simulated 3..5-party run of a small template program (comparison, lsb, mod, to_bits, '
@@ -1557,6 +1567,7 @@ class C18(Spec):
         # only the l low bits are asked for: the mask still has to cover all bit_length + k bits of a
         ('to_bits-low4', 'int', {'l': 64}, (5, 5 + (1 << 60)), [['to_bits', ['r'], ['a'], {'l': 4}]]),
         ('to_bits-low1-neg', 'int', {'l': 64}, (-3, -3 - (1 << 62)), [['to_bits', ['r'], ['a'], {'l': 1}]]),
+        ('trailing_zeros-low8', 'int', {'l': 64}, (1, 1 + (1 << 62)), [['trailing_zeros', ['r'], ['a'], {'l': 8}]]),
         # large-field branches (field order >> 2^k) of the zero test / comparison
         ('sgn-64', 'int', {'l': 64}, (1, (1 << 63) - 1), [['ltc', ['r'], ['a'], {'c': 0}]]),
         ('eq-64', 'int', {'l': 64}, (5, 1 << 62), [['eqc', ['r'], ['a'], {'c': 7}]]),
